@@ -58,6 +58,10 @@ def judgeFlight (sp : Spec.Cache.Spec) (k c : Bytes) (ttl now : Int) (obs : Stri
     else (Spec.Cache.sent sp (k, c) (unixMilli (now + ttl)), "ok")
   | _ => (sp, "bad-op")
 
+
+def parseIds (s : String) : Option (List Nat) :=
+  if s == "-" then some [] else (s.splitOn ",").mapM String.toNat?
+
 def step (st : St) (ws : List String) : St × String :=
   match ws with
   | ["reset"] => ({ m := Adapter.init, sp := Spec.Cache.empty }, "ok")
@@ -107,6 +111,13 @@ def step (st : St) (ws : List String) : St × String :=
       let sp := Spec.Cache.update st.sp (k, c) v (pack raw)
       ({ st with sp := sp }, if want = pxat then "ok" else s!"pxat-should-be={want}")
     | _, _, _, _, _ => (st, "bad-op")
+  | ["!close", pending, released] =>
+    -- specification: Close(err) wakes the waiters of EVERY pending entry, and only those, with the error
+    match parseIds pending, parseIds released with
+    | some p, some r =>
+      (st, if Spec.Cache.closeOk p r then "ok"
+           else s!"not-released={",".intercalate ((p.filter fun i => !r.contains i).map toString)}")
+    | _, _ => (st, "bad-op")
   | _ => (st, "bad-op")
 
 end AdDrv
